@@ -541,7 +541,13 @@ def deck_manager_rules(ctx):
         ctx.inst('R10', h, 'record-forgotten-on-every-path', bool(cl) and esc is None,
                  'every path through the handler for the manager\'s own memory must pass %s (otherwise the next request raises "operation ongoing" for ever); %s'
                  % (' / '.join(want), 'escaping path ' + g.fmt_path(esc) if esc else 'all paths pass'))
-        users = [n for n, c in g.find(lambda q: isinstance(q, ast.Call) and isinstance(q.func, ast.Name) and q.func.id == 'tmp_cb')]
+        # the user callback: a local that was read from one of the manager's callback slots (whatever it is called)
+        cb_locals = {'tmp_cb'} | {t_.id for s_ in walk_own(h.node) if isinstance(s_, ast.Assign) and any('_cb' in norm(x) and norm(x).startswith('self.') for x in ast.walk(s_.value))
+                                 for tt in s_.targets for t_ in ast.walk(tt) if isinstance(t_, ast.Name)}
+        for _ in range(3):       # ... or from a local that was (a tuple of slots unpacked again)
+            cb_locals |= {t_.id for s_ in walk_own(h.node) if isinstance(s_, ast.Assign) and any(isinstance(x, ast.Name) and x.id in cb_locals for x in ast.walk(s_.value))
+                          for tt in s_.targets for t_ in ast.walk(tt) if isinstance(t_, ast.Name)}
+        users = [n for n, c in g.find(lambda q: isinstance(q, ast.Call) and isinstance(q.func, ast.Name) and q.func.id in cb_locals)]
         ok = bool(users) and all(any(g.dominates(c, u) for c in cl) for u in users)
         ctx.inst('R10', h, 'forgotten-before-user-callback', ok, 'the record is forgotten before the user callback runs (the callback may issue the next request)')
     for fn, attr in (('_read', 'self._read_complete_cb'), ('_write', 'self._write_complete_cb'), ('query_decks', 'self._query_complete_cb')):
